@@ -54,7 +54,7 @@ def wf_value(world, o):
     return g(world.pod_table(), o)
 
 
-def discover(world):
+def discover(world, strict=True):
     """-> list of RuleTask (one per rule and per class a predicate argument can have)"""
     m = world.modules["ctparse.time.rules"]
     rulemod = world.modules["ctparse.rule"]
@@ -89,7 +89,8 @@ def discover(world):
         # cross-check with the registry of the imported module
         reg = registry.get(node.name)
         mine = [[s.kind, s.pid if s.kind == "regex" else (s.pred if s.kind == "predicate" else s.dim)] for s in specs]
-        if node.name in seen:
+        ndefs = sum(1 for n2, _ in world.rule_defs() if n2.name == node.name)
+        if ndefs > 1 or not strict:
             pass   # duplicate definition: C19 reports it; the later one is what the registry holds
         elif reg is not None and reg != mine:
             raise RuntimeError("engine disagreement on the patterns of %s: ast %r vs registry %r" % (node.name, mine, reg))
